@@ -40,8 +40,12 @@ enum Demand {
 
 /// The kind clauses are demanded only when the over-large component is the *only* defect:
 /// the same text with that component replaced by `1` is a version the crate accepts.
-fn otherwise_valid(s: &str, st: usize, end: usize) -> bool {
-    let t = format!("{}1{}", &s[..st], &s[end..]);
+/// everything *before* component `k` (0-based) starting at `st` is fine: the text up to the
+/// component, completed by small numbers, parses. What follows the component does not matter —
+/// the component is the first thing wrong, reading left to right.
+fn otherwise_valid(s: &str, st: usize, _end: usize, k: usize) -> bool {
+    let completion = ["1.1.1", "1.1", "1"][k.min(2)];
+    let t = format!("{}{}", &s[..st], completion);
     matches!(guarded(|| Version::parse(&t)), Ok(Ok(_)))
 }
 
@@ -71,11 +75,11 @@ fn demand_for_version(s: &str) -> Demand {
         }
         let d = s[st..i].trim_start_matches('0');
         if d.len() > 20 || (d.len() == 20 && d > "18446744073709551615") {
-            return if otherwise_valid(s, st, i) { Demand::ParseInt { at: st } } else { Demand::None };
+            return if otherwise_valid(s, st, i, k) { Demand::ParseInt { at: st } } else { Demand::None };
         }
         let v: u64 = if d.is_empty() { 0 } else { d.parse().unwrap() };
         if v > crate::mv::MAX_SAFE {
-            return if otherwise_valid(s, st, i) { Demand::MaxInt { value: v, at: st } } else { Demand::None };
+            return if otherwise_valid(s, st, i, k) { Demand::MaxInt { value: v, at: st } } else { Demand::None };
         }
         if k < 2 {
             if i < b.len() && b[i] == b'.' {
@@ -294,6 +298,18 @@ pub fn run(ctx: &mut Ctx) {
     for s in &directed {
         if ctx.take() {
             judge(ctx, s);
+        }
+    }
+    // two things wrong at once: a component above the limits (first thing wrong, reading left to
+    // right) followed by a core that is also incomplete or malformed further right
+    ctx.stratum("D2-big-component-then-broken-tail", true);
+    for big in ["900719925474100", "9007199254740992", "18446744073709551615", "18446744073709551616", "99999999999999999999", "0009007199254740993"] {
+        for head in ["", "1.", "1.2.", "v", "v1.", " 1.2."] {
+            for tail in ["", ".1", ".x.3", ".1.", ".1.2.3.4", "..", ".1.2-", "x", ".1.2 foo", "-", "+", ".é", "\n.1.2", ".1.2\n"] {
+                if ctx.take() {
+                    judge(ctx, &format!("{}{}{}", head, big, tail));
+                }
+            }
         }
     }
     // blanks other than space / tab / newline: every Unicode White_Space character (1, 2 and 3
